@@ -79,7 +79,7 @@ class Finder:
         """
         # shortcut if Sid is not a search
         sid = Sid(search_sid)
-        if sid and not sid.is_search():
+        if sid and not sid.is_search() and unfold_search(sid) == [sid]:
             generator = self.do_find([sid], as_sid=as_sid)
         else:
             search_sids = unfold_search(search_sid)
